@@ -111,6 +111,12 @@ class DegChecker:
                     return POLY
                 return TOP
             return TOP
+        if isinstance(e, ast.Call) and isinstance(e.func, ast.Name) and e.func.id == "getattr" and len(e.args) in (2, 3) and isinstance(e.args[0], ast.Name) and isinstance(e.args[1], ast.Constant) and isinstance(e.args[1].value, str):
+            # getattr(self, "x", default): the field (a private cache that only ever holds what this code stored into
+            # it is degree-polymorphic until a store fixes it) joined with the default
+            k = f"{e.args[0].id}.{e.args[1].value}"
+            d = self.fields.get(k, env.get(k, POLY))
+            return join(d, self.deg(e.args[2], env)) if len(e.args) == 3 else d
         if isinstance(e, ast.Call):
             return self.call(e, env)
         if isinstance(e, (ast.ListComp, ast.GeneratorExp)):
